@@ -463,10 +463,7 @@ namespace occa {
     // Wrapped host pointers (use_host_pointer) are not device allocations,
     //   ~modeBuffer_t doesn't subtract them either
     if (!mem.getModeMemory()->modeBuffer->isWrapped) {
-      modeDevice->bytesAllocated += bytes;
-      modeDevice->maxBytesAllocated = std::max(
-        modeDevice->maxBytesAllocated, modeDevice->bytesAllocated
-      );
+      modeDevice->addBytesAllocated(bytes);
     }
 
     return mem;
